@@ -8,6 +8,8 @@
 #include "ccl/lang/TextEnvironment.h"
 #include "ccl/lang/LexicalTerm.h"
 
+#include <charconv>
+
 namespace ccl::lang {
 
 namespace {
@@ -130,10 +132,13 @@ Reference Reference::Parse(std::string_view refStr) {
     return Reference{ EntityRef{ std::string{ tokens.at(EntityRef::TR_ENTITY) }, std::move(form) } };
   }
   case ReferenceType::collaboration: {
-    return Reference{ 
-      CollaborationRef{ std::string{ tokens.at(CollaborationRef::CR_TEXT) },
-      static_cast<int16_t>(stoi(std::string{ tokens.at(CollaborationRef::CR_OFFSET) })) } 
-    };
+    const auto offsetText = tokens.at(CollaborationRef::CR_OFFSET);
+    int16_t offset{};
+    const auto [last, errorCode] = std::from_chars(offsetText.data(), offsetText.data() + size(offsetText), offset);
+    if (errorCode != std::errc{} || last != offsetText.data() + size(offsetText)) {
+      return {};
+    }
+    return Reference{ CollaborationRef{ std::string{ tokens.at(CollaborationRef::CR_TEXT) }, offset } };
   }
   default:
   case ReferenceType::invalid: return {};
